@@ -182,8 +182,13 @@ class _Run:
         self.schemas = self.env["schemas"]
         self.h5py = h5py
         self.MC = MetadorContainer
-        self.drv = h5py.File if case["driver"] == "h5" else IH5Record
-        self.path = os.path.join(tmp, "rec" if case["driver"] == "ih5" else "c.h5")
+        if case["driver"] == "mf":  # C09: IH5 record with manifest sidecar (subclass of IH5Record)
+            from metador_core.ih5.manifest import IH5MFRecord
+
+            self.drv = IH5MFRecord
+        else:
+            self.drv = h5py.File if case["driver"] == "h5" else IH5Record
+        self.path = os.path.join(tmp, "c.h5" if case["driver"] == "h5" else "rec")
         self.mc = MetadorContainer(self.drv(self.path, "w"))
         self.oracle = []
         self.tags = set()
@@ -625,12 +630,18 @@ class _Run:
             for s in subs:
                 res.append(self.meta_sub(m, node, s, step))
             return "+".join(res)
+        if k == "sattr":  # C09: attribute of a user node through the container wrapper
+            from .h5util import dec_val
+
+            return _tree(self.status(lambda: mc[op[1]].attrs.__setitem__(op[2], dec_val(op[3]))))
+        if k == "dattr":
+            return _tree(self.status(lambda: mc[op[1]].attrs.__delitem__(op[2])))
         if k == "reopen":
             self.mc.close()
             self.mc = self.MC(self.drv(self.path, "r+"))
             return "ok"
         if k == "patch":
-            if self.case["driver"] == "ih5":
+            if self.case["driver"] in ("ih5", "mf"):
                 self.raw().commit_patch()
                 self.raw().create_patch()
             else:
@@ -897,9 +908,38 @@ def gen_obs(rng, sh, n, full=False):
     return items
 
 
-def gen_history(rng, n_ops, driver, insts, held=True, nq=5, nfinal=24, obs=None):
-    """Returns ops; appends used instances to `insts` and per-step observation items to `obs`."""
-    sh = Shadow()
+ATTR_KEYS = ["k", "m", "unit"]
+ATTR_VALS = ["i:0", "i:1", "i:7", "s:6162", "s:", "a:1,2,3:3", "b:00ff00", "i:255"]
+
+
+def gen_attr_op(rng, sh, nodes):
+    """C09: set / delete an attribute of a user node (mostly existing nodes, incl. the root)."""
+    known = getattr(sh, "attrs", None)
+    if known is None:
+        known = sh.attrs = {}
+    have = sorted((p, k) for p, ks in known.items() if p in sh.kind for k in ks)
+    r = rng.random()
+    if have and r < 0.3:
+        p, k = rng.choice(have)
+        known[p].discard(k)
+        return ["dattr", p, k]
+    if r < 0.36:
+        return ["dattr", rng.choice(nodes), rng.choice(ATTR_KEYS)]  # mostly absent -> refused
+    if have and r < 0.5:
+        p, k = rng.choice(have)  # overwrite
+        return ["sattr", p, k, rng.choice(ATTR_VALS)]
+    p = rng.choice(nodes) if rng.random() < 0.93 else sh.fresh_path(rng)  # missing node -> refused
+    k = rng.choice(ATTR_KEYS)
+    if p in sh.kind:
+        known.setdefault(p, set()).add(k)
+    return ["sattr", p, k, rng.choice(ATTR_VALS)]
+
+
+def gen_history(rng, n_ops, driver, insts, held=True, nq=5, nfinal=24, obs=None, sh=None, boundaries=True, attr_p=0.0):
+    """Returns ops; appends used instances to `insts` and per-step observation items to `obs`.
+    C09 passes its own `sh`, `boundaries=False` (no reopen/patch ops: they are inserted per
+    variant there) and `attr_p` > 0 (attribute ops on user nodes)."""
+    sh = sh if sh is not None else Shadow()
     ops = []
     obs = obs if obs is not None else []
 
@@ -955,6 +995,9 @@ def gen_history(rng, n_ops, driver, insts, held=True, nq=5, nfinal=24, obs=None)
         r = rng.random()
         nodes = sh.nodes()
         nonroot = [p for p in nodes if p != "/"]
+        if attr_p and len(nodes) >= 2 and rng.random() < attr_p:
+            ops.append(gen_attr_op(rng, sh, nodes))
+            continue
         if r < 0.10 or len(nodes) < 2:
             p = sh.fresh_path(rng) if rng.random() < 0.9 else rng.choice(nodes)
             ops.append(["grp", p])
@@ -1058,6 +1101,8 @@ def gen_history(rng, n_ops, driver, insts, held=True, nq=5, nfinal=24, obs=None)
                 par = dst.rsplit("/", 1)[0] or "/"
                 if sh.kind.get(par, "g") == "g":
                     sh.clone(src, dst, True, move=True)
+        elif not boundaries:
+            ops.append(gen_attr_op(rng, sh, nodes))
         elif r < 0.95:
             ops.append(["reopen"])
         else:
